@@ -105,15 +105,18 @@ CHECKS = {
              "raise only documented errors and are complete; the float annealing loop's termination/completeness is harness-only); the Hilbert curve of every level enumerates "
              "its square exactly once (structural induction), so the Hilbert chip order side condition and completeness hold for "
              "machines of every size. breadth_first/hilbert/rcm.place are model entry points (forwarding shape-checked from source) "
-             "with the three clauses as corollaries; Machine's membership test is regenerated from machine.py (its other "
+             "with the three clauses as corollaries; breadth_first_vertex_order itself is modelled with CPython's set choices "
+             "(pop, iteration order) as oracles, proved for EVERY oracle to list every vertex exactly once (so breadth_first.place "
+             "is sound with no premise on the order), shape-matched from the source statement by statement, and every real order "
+             "is replayed in the model; Machine's membership test is regenerated from machine.py (its other "
              "methods shape-checked, fail closed) with lemmas for lookup/assignment/iteration and out-of-bounds dead chips. "
              "Verified checkers check_placement / check_placement_fast (soundness proved) are evaluated in "
              "Coq on the REAL output of all seven placer configurations, large cases included. Exact correspondence for the sequential family, rand "
              "(scripted), SA initial placement and step-by-step replay of the Python kernel; independent feasibility oracle.",
         ref="4 C02", technique="Coq proof (invariant free = capacity - reserved - placed; verified validator) + vm_compute correspondence incl. step replay of the SA kernel",
         note=TB + " Partial where stated: the rig_c_sa C kernel is third-party compiled code (outputs validated only); the float "
-             "temperature loop is not modelled (termination observed under an alarm); set iteration order inside the bf/RCM order "
-             "functions is recorded per instance, not modelled."),
+             "temperature loop is not modelled (termination observed under an alarm); set iteration order inside the RCM order "
+             "functions is recorded per instance, not modelled (the breadth-first order is modelled, set choices as oracles)."),
     "C04": dict(
         text="Full. Universal theorems about Gallina models of all minimisers whose bit kernels (intersect, generality, merge "
              "key/mask expressions) are regenerated from the source on every run: default-route removal preserves the routing "
